@@ -442,6 +442,8 @@ def judge(ctx, scenarios, rows, tag, maxprop, stats):
                 stats["ev_rejected_verdict"] = stats.get("ev_rejected_verdict", 0) + 1
         if sc.get("rt"):
             stats["rt_scenarios"] = stats.get("rt_scenarios", 0) + 1
+        if len(ctx.violations) >= 8:
+            break       # enough evidence; every further scenario costs a TLC run
         dups = duplicates(sc, row)
         cks = [r["ck"] for r in row["responses"].values()]
         if sid not in accepted and sid not in rejected and not dups and all(c == "K" for c in cks):
@@ -472,6 +474,8 @@ def judge(ctx, scenarios, rows, tag, maxprop, stats):
             else:
                 kind, reason = explain(row["events"], idx)
             ev = row["events"][idx] if 0 <= idx < len(row["events"]) else {}
+            if kind == "prop" and late_extra(row["events"], idx):
+                kind, reason = "drift", "batch of juror requests reached the gate in two parts"
             if kind == "prop":
                 sig = "C11 step not allowed: %s" % reason
                 what = "scenario %s event %d %s: %s" % (sid, idx, json.dumps({k: v for k, v in ev.items() if v not in (0, [], "none")}, sort_keys=True), reason)
@@ -484,31 +488,43 @@ def judge(ctx, scenarios, rows, tag, maxprop, stats):
 
 
 def reproduce(ctx, sc, sig, what, row, still, idx=None, why=None):
-    """Re-run the scenario once from scratch; report only what shows up again."""
-    known = any(k.get("status") == "known" and __import__("re").search(k["signature"], sig) for k in ctx._known)
+    """Re-run the scenario once from scratch; report only what shows up again (the same duplicate, or -
+    the real code picks quorums at random in free mode - any step the property forbids)."""
+    import re
+    known = any(k.get("status") == "known" and re.search(k["signature"], sig) for k in ctx._known)
     if sig in [v[0] for v in ctx.violations]:
         ctx.report(sig, what, {})
         return
     for k in ctx._known:
-        if k.get("status") == "known" and __import__("re").search(k["signature"], sig) and k["id"] in [h[0] for h in ctx.known_hits]:
+        if k.get("status") == "known" and re.search(k["signature"], sig) and k["id"] in [h[0] for h in ctx.known_hits]:
             ctx.known_count = getattr(ctx, "known_count", 0) + 1
             return
-    rows2, _ = run_harness(ctx, [sc], "repro%d" % (len(ctx.violations) + len(ctx.known_hits)))
+    if len(ctx.violations) >= 8:
+        return
+    ctx.repro_n = getattr(ctx, "repro_n", 0) + 1
+    rows2, _ = run_harness(ctx, [sc], "repro%d" % ctx.repro_n)
     r2 = rows2[0]
-    again = False
-    if still is not None:
-        again = still(r2)
-    else:
-        ok, bad, _, _ = tlc_trace(ctx, [(sc, r2["events"])], "repro%d" % (len(ctx.violations) + len(ctx.known_hits)), sc["maxprop"])
+    again = bool(still and still(r2))
+    if not again and not known:
+        ok, bad, _, _ = tlc_trace(ctx, [(sc, r2["events"])], "repro%d" % ctx.repro_n, sc["maxprop"])
         if not ok:
-            k2, w2 = explain(r2["events"], bad[1]) if not bad[2].startswith("invariant") else ("prop", bad[2])
-            again = (k2 == "prop")
+            k2, _w = explain(r2["events"], bad[1]) if not bad[2].startswith("invariant") else ("prop", bad[2])
+            again = (k2 == "prop") and not late_extra(r2["events"], bad[1])
     if not again:
-        if known:
-            return
-        raise vlib.Inconclusive("did not reproduce on a re-run: %s" % what)
+        if not known:
+            ctx.unreproduced = getattr(ctx, "unreproduced", []) + [what]
+        return
     ctx.report(sig, what, {"scenario": sc, "observed_events": row["events"], "responses": row["responses"],
                            "cmd": "python3 tools/verif.py replay C11 <this file>"})
+
+
+def late_extra(events, idx):
+    """A proposal the harness logged short because part of the batch reached the gate late (the rest
+    shows up as `extra` events of the same pledge and key): harness timing, not the code."""
+    if not (0 <= idx < len(events)) or events[idx]["ev"] != "propose":
+        return False
+    e = events[idx]
+    return any(x["ev"] == "extra" and x["p"] == e["p"] and x["k"] == e["k"] for x in events[idx + 1:])
 
 
 # ------------------------------------------------------------------ main
@@ -631,6 +647,8 @@ def run(ctx):
     total = len(directed) + len(scenarios) + len(free)
 
     if not ctx.violations:
+        if getattr(ctx, "unreproduced", None):
+            raise vlib.Inconclusive("did not reproduce on a re-run: %s" % ctx.unreproduced[0])
         if incomplete:
             raise vlib.Inconclusive("directed scenario did not run to the end: %s" % incomplete[0])
         if stalled:
